@@ -24,7 +24,7 @@ def load_contracts():
 def targets(reg, repo, props=None, only=None):
     out = []
     for q, c in reg.contracts.items():
-        if c.trusted or c.inline or c.bounded:
+        if c.trusted or c.inline or (c.bounded and not os.environ.get("VERIF_TRY_BOUNDED")):
             continue
         if only and not any(o in q for o in only):
             continue
